@@ -201,6 +201,8 @@ def gen_viaread(si):
 
 
 def check_point(pt):
+    from ..core import inputs as _inputs
+    _inputs.process_prelude()   # explored in a process that has already read many other files (see core/inputs.py)
     kind = pt[0]
     if kind == "grid":
         vio, n, nt = run_lines(gen_grid(pt[1], pt[2], pt[3], pt[4]))
